@@ -136,8 +136,8 @@ static void run(const History& h, const std::string& family) {
                // which filter type decides?
                // the filter type that decides this message: the first one (log filters first) whose value in effect rejects/accepts differently is not known; name the types on the object that misbehaves
                std::string ft; for (auto& st : h.steps) if ((which == "filtered-destination") || st.target == 0) { std::string n = type_text[st.s.type]; if (ft.find(n) == std::string::npos) ft += (ft.empty() ? "" : "+") + n; }
-               if (h.create_l1_after_policy && h.policy != 0) ft = "*";      // the duplicate policy is the suspect, not a filter type
-               vf::violation(std::string(got > exp ? (got > 1 ? "delivered-twice" : "delivered-but-filtered") : "not-delivered") + "|" + which + "|" + sigbase + "|" + ft + (h.create_l1_after_policy ? "|object-created-after-policy" : ""),
+
+               vf::violation(std::string(got > exp ? (got > 1 ? "delivered-twice" : "delivered-but-filtered") : "not-delivered") + "|" + which + "|" + sigbase + "|" + ft,
                              std::string("message (") + level_text[l] + ", " + class_text[c] + ") sent to " + (t.name ? std::string("log '") + t.name + "'" : "id mask " + std::to_string(t.mask)) + ": " + which + " received it " + std::to_string(got) + " times, expected " + std::to_string(exp) +
                              "\n  history: " + hist_text(h), hist_text(h));
                bad = true; break;
